@@ -1,6 +1,7 @@
 import Mp4ff.Model.Cenc
 import Mp4ff.Expect.Facts
 import Mp4ff.Lemmas.C07
+import Mp4ff.Lemmas.CencCbcs
 import Mp4ff.Props.C06b
 /-!
 # C07 — encrypted output is well-formed Common Encryption and matches a reference cipher
@@ -27,6 +28,21 @@ theorem cencProt_shape (c : Codec) (n : Bytes) :
     cencProt c n % 16 = 0 ∧ cencProt c n ≤ n.length ∧
     (c.isVideo (c.typeOf (n.headD 0)) = true → n.length > 127 → n.length - cencProt c n ≤ 127 ∧ 0 < cencProt c n) ∧
     (c.isVideo (c.typeOf (n.headD 0)) = false → cencProt c n = 0) := Cenc.cencProt_shape c n
+
+/-- **cbcs: slice headers stay clear, every video NAL unit is protected from the end of its slice header to its end**,
+    for every well-formed AVC or HEVC sample and every slice header size function `hdr` (bytes of the unit occupied by
+    NAL header and slice header: the slice header parser's answer, Model/AvcSlice.lean / C15) that answers inside the
+    unit: the sub-sample entries partition the sample with exactly the standard's mask — length field and `hdr n` bytes
+    of a video unit clear, the rest of the unit protected, every other unit clear — and no clear count > 65535 -/
+theorem protectRanges_cbcs (c : Codec) (hdr : Bytes → Option Nat) (ns : List Bytes) (h : NalusOK ns) (hne : ns ≠ [])
+    (hh : ∀ n ∈ ns, c.isVideo (c.typeOf (n.headD 0)) = true → ∃ k, hdr n = some k ∧ k ≤ n.length) :
+    ∃ rs, protectRanges c (some hdr) (lenPrefixed ns) = some rs ∧ maskOf rs = cbcsMask c hdr ns ∧
+      (∀ r ∈ rs, r.clear ≤ 65535) := Cenc.protectRanges_cbcs' c hdr ns h hne hh
+
+/-- an IDR slice whose header occupies 3 bytes, after an access unit delimiter: 4 + 2 + 4 + 3 bytes clear, 4 protected -/
+example : cbcsMask avc (fun _ => some 3) [[0x09, 0x10], [0x65, 1, 2, 3, 4, 5, 6]]
+    = List.replicate 13 false ++ List.replicate 4 true := by decide
+#guard protectRanges avc (some fun _ => some 3) (lenPrefixed [[0x09, 0x10], [0x65, 1, 2, 3, 4, 5, 6]]) == some [⟨13, 4⟩]
 
 /-- `AppendProtectRange` splits clear runs above 65535 bytes without changing what is protected -/
 theorem appendProtectRange_spec (l : List SubSample) (c p : Nat) :
